@@ -272,6 +272,7 @@ class Builder(object):
 
 
 CFG = Cfg(max_depth=3, pow=True, quant_unbounded=True, nsyms=2, bv_widths=[1, 2, 4, 8, 33],
+          sorts=["S1", "S2", "L{S1}", "L{L{S1}}", "P{S2, Int}", "P{L{S2}, Bool}"],
           ints=[0, 1, -1, 2, 7, 2 ** 70], reals=[Fraction(0), Fraction(1), Fraction(1, 2), Fraction(-3, 4), Fraction(5),
                                                   Fraction(1, 3), Fraction(2 ** 70, 3), Fraction(0.1), Fraction(1e-9), Fraction(-2.7)],
           strings=["", "a", "ab", "0"], share=35)
